@@ -2592,7 +2592,9 @@ static int cfg_print_pff_indent(cfg_t *cfg, FILE *fp,
 {
 	int i, result = CFG_SUCCESS;
 
-	for (i = 0; cfg->opts[i].name; i++) {
+	for (i = 0; cfg->opts[i].name; i++)
+		CFG_VERIF_LOOP(print_cfg)
+	{
 		cfg_print_filter_func_t pff = cfg->pff ? cfg->pff : fb_pff;
 		if (pff && pff(cfg, &cfg->opts[i]))
 			continue;
